@@ -172,7 +172,6 @@ Lemma grel_mono {X1 X2} (P P' : X1 -> X2 -> Prop) (Q2 Q2' : X2 -> Prop) r1 r2 :
   grel P' Q2' r1 r2.
 Proof.
   intros Hr HP HQ. destruct Hr; try (constructor; auto; fail).
-  apply gr_early; auto.
 Qed.
 
 Lemma grel_err_at {X1 X2} (P : X1 -> X2 -> Prop) Q2 text s mk :
